@@ -33,21 +33,22 @@ theorem XWF_root_unique (s : XSent) (root root' : Str) (h : XWF s root) (h' : XW
 /-- MAIN (row 7, foreign ids).  On every `XWF` element structure the sentence reader succeeds and yields EXACTLY the decoder's
     tree (children in the order of the `<edge>` elements: the reader's storage order does not depend on the order of the `<nt>` or
     `<t>` elements beyond the token numbers), rewritten by the label options.  Every option record.
-    `XLabelled` (every `<edge>` has a `label`) cannot be dropped: `exNoLabel` below, where the MODEL DISAGREES WITH THE CODE. -/
-theorem tigerSentence_decX (o : InOpts) (s : XSent) (root : Str) (h : XWF s root) (hlab : XLabelled s) :
+    No hypothesis on the `label` attributes of the `<edge>` elements (since repair P11 of the reader model: an `<edge>` without `label`
+    gives the child the edge field `none`, as the code's `edge.get('label')` = Python `None`; `exNoLabel` below). -/
+theorem tigerSentence_decX (o : InOpts) (s : XSent) (root : Str) (h : XWF s root) :
     ∃ t, XDecodes s root t ∧ tigerSentence o s = .ok (tigerPost o t) := by
-  obtain ⟨d, hd, hs⟩ := tigerSentence_XWF o s root h hlab
+  obtain ⟨d, hd, hs⟩ := tigerSentence_XWF o s root h
   exact ⟨vrootOf d, ⟨h.root_mem, h.root_free, d, hd, rfl⟩, hs⟩
 
 /-- the same with the decoder's tree given -/
-theorem tigerSentence_decX' (o : InOpts) (s : XSent) (root : Str) (h : XWF s root) (hlab : XLabelled s) (t : Tree)
+theorem tigerSentence_decX' (o : InOpts) (s : XSent) (root : Str) (h : XWF s root) (t : Tree)
     (ht : XDecodes s root t) : tigerSentence o s = .ok (tigerPost o t) := by
-  obtain ⟨t', ht', hs⟩ := tigerSentence_decX o s root h hlab
+  obtain ⟨t', ht', hs⟩ := tigerSentence_decX o s root h
   rw [XDecodes_unique s h.nodup root t t' ht ht']; exact hs
 
 /-- SOUNDNESS without any well-formedness hypothesis on the structure: whatever the sentence reader yields is a tree of the decoder for some root
     element without incoming edge (never "another tree") -/
-theorem tigerSentence_sound (o : InOpts) (s : XSent) (hlab : XLabelled s) (r : Tree) (h : tigerSentence o s = .ok r) :
+theorem tigerSentence_sound (o : InOpts) (s : XSent) (r : Tree) (h : tigerSentence o s = .ok r) :
     ∃ root t, XDecodes s root t ∧ r = tigerPost o t := by
   unfold tigerSentence at h
   simp only at h
@@ -64,7 +65,7 @@ theorem tigerSentence_sound (o : InOpts) (s : XSent) (hlab : XLabelled s) (r : T
     split at h
     · cases h
     · rename_i d hd
-      refine ⟨rt, vrootOf d, ⟨hmem.1, by simpa [XSent.refs] using hmem.2, d, tigerBuild_sound s hlab _ _ _ _ hd, rfl⟩, ?_⟩
+      refine ⟨rt, vrootOf d, ⟨hmem.1, by simpa [XSent.refs] using hmem.2, d, tigerBuild_sound s _ _ _ _ hd, rfl⟩, ?_⟩
       cases h; rfl
   · cases h
 
@@ -73,10 +74,10 @@ theorem tigerSentence_sound (o : InOpts) (s : XSent) (hlab : XLabelled s) (r : T
     no `<nt>` without `<edge>`, and the root element is not a `<t>` with `pos="VROOT"` (both are needed: `exEmptyNt`, `exVrootTok`
     below; that there is at least one `<t>` follows, `Tiger19.terms_ne_nil`).  Option records that do not rewrite labels. -/
 theorem tigerSentence_decX_WF (o : InOpts) (hg : o.gfSplit = false) (hr : o.replaceParens = false) (s : XSent) (root : Str)
-    (h : XWF s root) (hlab : XLabelled s) (hne : XNoEmpty s)
+    (h : XWF s root) (hne : XNoEmpty s)
     (hrt : ∀ tm ∈ s.terms, tm.id = root → tm.pos ≠ some DEFAULT_ROOT) :
     ∃ t, XDecodes s root t ∧ tigerSentence o s = .ok t ∧ WF t = true := by
-  obtain ⟨d, hd, hs⟩ := tigerSentence_XWF o s root h hlab
+  obtain ⟨d, hd, hs⟩ := tigerSentence_XWF o s root h
   refine ⟨vrootOf d, ⟨h.root_mem, h.root_free, d, hd, rfl⟩, ?_, decX_WF s root d h hne hrt _ hd⟩
   rw [hs]; simp [tigerPost, hg, hr]
 
@@ -89,7 +90,7 @@ theorem XDecodes_WF (s : XSent) (root : Str) (t : Tree) (h : XWF s root) (hne : 
 /-! ## 3. the whole reader: one tree per `<s>`, file order, ids of the numbering option -/
 
 theorem foldlM_tigerStep_decX (o : InOpts) : ∀ (ss : List XSent) (k : Nat) (acc : List (Nat × Tree)),
-    (∀ s ∈ ss, (∃ root, XWF s root) ∧ XLabelled s ∧ (lastNumber s.id).isSome = true) →
+    (∀ s ∈ ss, (∃ root, XWF s root) ∧ (lastNumber s.id).isSome = true) →
     ∃ ts : List Tree, ts.length = ss.length ∧
       (ss.zipIdx k).foldlM (tigerStep o) acc =
         .ok (acc ++ (if o.continuous then List.range' (k + 1) ss.length
@@ -97,8 +98,8 @@ theorem foldlM_tigerStep_decX (o : InOpts) : ∀ (ss : List XSent) (k : Nat) (ac
       ∀ p ∈ ss.zip ts, ∃ root, XWF p.1 root ∧ XDecodes p.1 root p.2
   | [], k, acc, _ => ⟨[], rfl, by simp; rfl, by simp⟩
   | s :: ss, k, acc, h => by
-    obtain ⟨⟨root, hwf⟩, hlab, hnum⟩ := h s (by simp)
-    obtain ⟨t, ht, hs⟩ := tigerSentence_decX o s root hwf hlab
+    obtain ⟨⟨root, hwf⟩, hnum⟩ := h s (by simp)
+    obtain ⟨t, ht, hs⟩ := tigerSentence_decX o s root hwf
     obtain ⟨n, hn⟩ := Option.isSome_iff_exists.1 hnum
     obtain ⟨ts, hl, hf, ha⟩ := foldlM_tigerStep_decX o ss (k + 1)
       (acc ++ [(if o.continuous then k + 1 else n, tigerPost o t)]) (fun x hx => h x (by simp [hx]))
@@ -123,7 +124,7 @@ theorem foldlM_tigerStep_decX (o : InOpts) : ∀ (ss : List XSent) (k : Nat) (ac
     demands of every sentence) the reader yields one tree per `<s>`, in file order, numbered as the numbering option says, each the
     decoder's tree of its sentence.  Every option record, any id scheme. -/
 theorem readTiger_decX (o : InOpts) (ss : List XSent)
-    (h : ∀ s ∈ ss, (∃ root, XWF s root) ∧ XLabelled s ∧ (lastNumber s.id).isSome = true) :
+    (h : ∀ s ∈ ss, (∃ root, XWF s root) ∧ (lastNumber s.id).isSome = true) :
     ∃ ts : List Tree, ts.length = ss.length ∧
       readTiger o ss = .ok ((if o.continuous then List.range' 1 ss.length
                               else ss.map fun s => (lastNumber s.id).getD 0).zip (ts.map (tigerPost o))) ∧
@@ -134,12 +135,12 @@ theorem readTiger_decX (o : InOpts) (ss : List XSent)
 /-- whole reader, with well-formedness (rows 7, 9, 10) -/
 theorem readTiger_decX_WF (o : InOpts) (hg : o.gfSplit = false) (hr : o.replaceParens = false) (ss : List XSent)
     (h : ∀ s ∈ ss, (∃ root, XWF s root ∧ ∀ tm ∈ s.terms, tm.id = root → tm.pos ≠ some DEFAULT_ROOT) ∧
-      XLabelled s ∧ (lastNumber s.id).isSome = true ∧ XNoEmpty s) :
+      (lastNumber s.id).isSome = true ∧ XNoEmpty s) :
     ∃ ts : List Tree, ts.length = ss.length ∧
       readTiger o ss = .ok ((if o.continuous then List.range' 1 ss.length
                               else ss.map fun s => (lastNumber s.id).getD 0).zip ts) ∧
       (∀ p ∈ ss.zip ts, ∃ root, XWF p.1 root ∧ XDecodes p.1 root p.2) ∧ ∀ t ∈ ts, WF t = true := by
-  obtain ⟨ts, h1, h2, h3⟩ := readTiger_decX o ss (fun s hs => ⟨(h s hs).1.elim fun r hr => ⟨r, hr.1⟩, (h s hs).2.1, (h s hs).2.2.1⟩)
+  obtain ⟨ts, h1, h2, h3⟩ := readTiger_decX o ss (fun s hs => ⟨(h s hs).1.elim fun r hr => ⟨r, hr.1⟩, (h s hs).2.1⟩)
   have hpost : ts.map (tigerPost o) = ts := by
     have : tigerPost o = id := by funext t; simp [tigerPost, hg, hr]
     rw [this, List.map_id]
@@ -152,7 +153,7 @@ theorem readTiger_decX_WF (o : InOpts) (hg : o.gfSplit = false) (hr : o.replaceP
     rw [List.mem_iff_getElem]
     exact ⟨i, by rw [List.length_zip]; omega, by simp⟩
   obtain ⟨root, hwf, hdec⟩ := h3 _ hmem
-  obtain ⟨⟨root', hwf', hrt⟩, _, _, hne⟩ := h ss[i] (List.getElem_mem hi')
+  obtain ⟨⟨root', hwf', hrt⟩, _, hne⟩ := h ss[i] (List.getElem_mem hi')
   have := XWF_root_unique _ _ _ hwf hwf'
   subst this
   exact XDecodes_WF _ _ _ hwf hne hrt hdec
@@ -216,7 +217,7 @@ theorem xsentOf_XLabelled (sid : Nat) (t : Tree) : XLabelled (xsentOf sid t) := 
     content `tigerReadTop t` (modulo the storage order of children: the writer lists the edges by leftmost token) -/
 theorem xsentOf_decodes (sid : Nat) (t : Tree) (hwf : WF t = true) (hlen : t.leafNums.length < 500) :
     ∃ d, XDecodes (xsentOf sid t) (natToStr (TT.Lemmas.TigerRT.numOf t [])) d ∧ sameTree d (tigerReadTop t) = true ∧ WF d = true := by
-  obtain ⟨d, hd, hs⟩ := tigerSentence_decX {} _ _ (xsentOf_XWF sid t hwf hlen) (xsentOf_labelled sid t)
+  obtain ⟨d, hd, hs⟩ := tigerSentence_decX {} _ _ (xsentOf_XWF sid t hwf hlen)
   obtain ⟨r, h1, h2, h3⟩ := tigerSentence_xsentOf {} rfl rfl sid t hwf hlen
   rw [hs] at h1
   have : tigerPost {} d = r := by injection h1
@@ -266,13 +267,17 @@ def exVrootTok : XSent := { id := "s1".toList, terms := [mkT "a" "x" "VROOT"], n
 example : XWF exVrootTok "a".toList := xwfB_XWF _ _ (fun _ => 0) (by decide +kernel)
 example : (match tigerSentence {} exVrootTok with | .ok t => t.isLeaf && !WF t | _ => false) = true := by decide +kernel
 
-/-- MODEL/CODE DISAGREEMENT on an `XWF` structure: an `<edge>` without `label`.  `tigerxml_build_tree` stores `edge.get('label')` =
-    Python `None` as the edge label of token 1 (that is what `XDecodes` says: edge field `none`); the MODEL stores the TEXT `None`. -/
+/-- AGREEMENT (was a model/code disagreement until repair P11) on an `XWF` structure with an `<edge>` without `label`:
+    `tigerxml_build_tree` stores `edge.get('label')` = Python `None` as the edge label of token 1; `XDecodes` says edge field `none`,
+    and so does the reader model now (it used to store the TEXT `None`).  Not `XLabelled`: non-vacuity of dropping that hypothesis. -/
 def exNoLabel : XSent := { id := "s1".toList, terms := [mkT "a" "x" "X"], nts := [{ id := "n".toList, cat := some "S".toList, edges := [(none, "a".toList)] }] }
 example : XWF exNoLabel "n".toList := xwfB_XWF _ _ (fun i => if i == "n".toList then 1 else 0) (by decide +kernel)
 example : (match tigerSentence {} exNoLabel with
-    | .ok t => Tree.beq t (vS (.leaf 1 { label := "X".toList, word := some "x".toList, edge := some "None".toList }))
+    | .ok t => Tree.beq t (vS (.leaf 1 { label := "X".toList, word := some "x".toList, edge := none }))
     | _ => false) = true := by decide +kernel
+example : ¬ XLabelled exNoLabel := fun h => by
+  have := h _ (List.mem_singleton.2 rfl) (none, "a".toList) (List.mem_singleton.2 rfl)
+  simp at this
 example : XDecodes exNoLabel "n".toList (vS (.leaf 1 { label := "X".toList, word := some "x".toList, edge := none })) := by
   refine ⟨by decide +kernel, by decide +kernel,
     .node { label := "S".toList, morph := some "--".toList, edge := some "--".toList, lemma := some "--".toList }
